@@ -11,10 +11,14 @@ CharNear  == (0..6) \cup (55289..55295) \cup (57344..57350) \cup (1114105..11141
 Small == ~Remaining.empty /\ Remaining.hi - Remaining.lo <= 2048 + SeqMax
 RemSet == IF Small THEN {v \in Remaining.lo..Remaining.hi : InDom(v)} ELSE {}
 IsSmall == Remaining.empty \/ (Small /\ Cardinality(RemSet) <= SeqMax)
+\* start.. : the first SeqMax values (as long as they stay below MaxV)
+RECURSIVE Prefix(_, _)
+Prefix(v, k) == IF k = 0 \/ v >= MaxV THEN <<>> ELSE <<v>> \o Prefix(Succ(v), k - 1)
 Line == [m |-> "RangeIter", ty |-> TypeName, kind |-> kind, start |-> start, end |-> end,
          next |-> DoNext.item, next_back |-> DoNextBack.item,
-         small |-> IF IsSmall THEN 1 ELSE 0,
-         seq |-> IF IsSmall THEN SetToSortSeq(RemSet, <) ELSE <<>>]
+         small |-> IF IsSmall \/ kind = "from" THEN 1 ELSE 0,
+         seq |-> IF kind = "from" THEN Prefix(start, SeqMax)
+                 ELSE IF IsSmall THEN SetToSortSeq(RemSet, <) ELSE <<>>]
 \* every (start, end) pair is an initial state, so only initial states are emitted (empty witness path)
 EmitInv == hist = <<>> =>
              Serialize(ToJson(Line) \o "\n", IOEnv.OUT,
